@@ -183,6 +183,20 @@ MSetDefault(v, t, k, nv) ==
     LET L == Filter(raw, v) IN
     IF FirstKey(L, k) # 0 THEN Res("", raw, val, ty, L) ELSE MSet(v, t, k, nv)
 
+(* popitem() is inherited from collections.abc.MutableMapping; these hybrid sequence / mapping    *)
+(* views document no meaning for it.  Two outcomes are admitted.  "refused": the call raises (on  *)
+(* the current tree the mixin takes next(iter(view)), which is an ITEM, and indexes with it:      *)
+(* TypeError; KeyError on an empty view) and is then a stutter (C19) - the exception class is not  *)
+(* prescribed ("ANY").  "first" / "last": exactly one item of the view goes, the first (mixin     *)
+(* order) or the last (dict order), everything else keeps identity and order.  The replay takes   *)
+(* the branch the code took; anything else (two items gone, another item gone, a refusal that     *)
+(* changed the list) matches neither.                                                             *)
+MPopItem(v, mode) ==
+    LET L == Filter(raw, v)  pos == VPos(raw, v)  n == Len(L)  j == IF mode = "first" THEN 1 ELSE n IN
+    IF mode = "refused" THEN Refuse("ANY", v)
+    ELSE IF n = 0 THEN Refuse("SKIP", v)
+    ELSE Res("", RemoveAt(raw, pos[j]), val, ty, RemoveAt(L, j))
+
 (* view.reverse() is what collections.abc.MutableSequence makes of it: pairwise swaps            *)
 (* view[i], view[n-1-i] = view[n-1-i], view[i].  On views of NODES the first swap assigns an       *)
 (* item that is still in the list, which is refused (C19) before anything changed; lists of 0 or 1 *)
@@ -243,6 +257,8 @@ Next ==
         \/ "reverse" \in Ops /\ Do("reverse", v, [x |-> 0], OpReverse(v))
         \/ "msetdefault" \in Ops /\ K \in {"map", "mapval"} /\ \E k \in Vals : \E nv \in Vals :
                 Do("msetdefault", v, [k |-> k, nv |-> nv], MSetDefault(v, ItemType(v), k, nv))
+        \/ "mpopitem" \in Ops /\ K \in {"map", "mapval"} /\ \E mode \in {"refused", "first", "last"} :
+                Do("mpopitem", v, [mode |-> mode], MPopItem(v, mode))
         \/ "mupdate" \in Ops /\ K \in {"map", "mapval"} /\ \E k \in Vals : \E nv \in Vals :
                 Do("mupdate", v, [k |-> k, nv |-> nv], MSet(v, ItemType(v), k, nv))
         \/ "remove" \in Ops /\ \E t \in Views[v].types : \E x \in Vals :
